@@ -166,7 +166,7 @@ def sha1(prog, rep):
     # group per macro invocation (expansion location)
     by_loc = {}
     for e in asg:
-        by_loc.setdefault(e.loc, []).append(e)
+        by_loc.setdefault(e.siteloc or e.loc, []).append(e)          # a round macro's expansion, or the call of the function it became
     rounds = sorted(by_loc.items(), key=lambda kv: (int(kv[0].split(":")[1]), int(kv[0].split(":")[2])))
     if len(rounds) != 80:
         rep.bad("R-sha1", "80 unrolled rounds", f.loc, "found %d round expansions" % len(rounds), function=f.name, construct="rounds")
